@@ -155,6 +155,8 @@ func checkC08(c *Ctx) {
 	ruleUpdateWritersUnconditional(c, "C08.m")
 	c.rule("C08.n", "per-message callbacks of the backend receive the mailbox-view number, never one translated for a session", 1)
 	ruleCallbackGetsMailboxView(c, "C08.n")
+	c.rule("C08.o", "a counter used as the offset of a retained queue suffix counts exactly the delivered elements", 1)
+	ruleRetainedSuffixCount(c, "C08.o", "imapserver", "imapserver/imapmemserver")
 	// expungeLocked: per removed message exactly one QueueExpunge: the call and the "keep" append are the two arms of one test
 	if ex := p.Func("imapserver/imapmemserver", "Mailbox", "expungeLocked"); ex != nil {
 		okArms := false
